@@ -14,6 +14,7 @@ import (
 	"encoding/hex"
 	"errors"
 	"fmt"
+	"math/rand"
 	"os"
 	"runtime"
 	"sort"
@@ -394,6 +395,9 @@ func (g *gate) wait(ctx context.Context, prov int) bool {
 	g.mu.Unlock()
 	select {
 	case ok := <-w.ch:
+		if ctx.Err() != nil {
+			return false
+		}
 		return ok
 	case <-ctx.Done():
 		g.mu.Lock()
@@ -406,6 +410,12 @@ func (g *gate) wait(ctx context.Context, prov int) bool {
 // scan reports whether the client is quiescent (its calling goroutine parked on a channel receive
 // or WaitGroup, every witness goroutine parked in the gate) and how many witness goroutines exist.
 func (g *gate) scan() (quiescent bool, others int) {
+	g.mu.Lock()
+	rel := make(map[uint64]bool, len(g.released))
+	for k := range g.released {
+		rel[k] = true
+	}
+	g.mu.Unlock()
 	buf := make([]byte, 1<<18)
 	n := runtime.Stack(buf, true)
 	quiescent = true
@@ -422,7 +432,7 @@ func (g *gate) scan() (quiescent bool, others int) {
 		state := rec[strings.IndexByte(rec, '[')+1:]
 		if gid == g.mainGID {
 			mainSeen = true
-			if !(strings.HasPrefix(state, "chan receive") || strings.HasPrefix(state, "semacquire") || strings.HasPrefix(state, "sync.WaitGroup")) {
+			if !strings.HasPrefix(state, "chan receive") {
 				quiescent = false
 			}
 			continue
@@ -434,7 +444,8 @@ func (g *gate) scan() (quiescent bool, others int) {
 			continue
 		}
 		others++
-		if !strings.Contains(rec, "(*gate).wait") {
+		if !strings.Contains(rec, "(*gate).wait") || !strings.HasPrefix(state, "select") || rel[gid] {
+			// running, sleeping, or released a moment ago and not yet scheduled
 			quiescent = false
 		}
 	}
@@ -492,6 +503,11 @@ func (g *gate) run() {
 			delete(g.waiting, best)
 			g.released[best] = true
 			g.rounds++
+			if os.Getenv("C09_DEBUG") == "2" {
+				buf := make([]byte, 1<<18)
+				n := runtime.Stack(buf, true)
+				fmt.Fprintf(os.Stderr, "RELEASE prov=%d main=%d\n%s\n=====\n", w.prov, g.mainGID, buf[:n])
+			}
 			w.ch <- true
 		}
 		g.mu.Unlock()
@@ -1328,7 +1344,33 @@ func (e *env) backs(p params, provID int, replies []reply, prev []storeEntry, bl
 var _ = hex.EncodeToString
 var _ = sort.Ints
 
+func selfCheck() {
+	r := rand.New(rand.NewSource(1))
+	n := 0
+	generate(r, "quick", func(c core.Case) {
+		n++
+		c.ID = fmt.Sprintf("g%d", n)
+		a := execCase(c)
+		b := execCase(c)
+		for i := range a {
+			if a[i] != b[i] {
+				fmt.Printf("NONDET case %s op %d: %s\n  1: %s\n  2: %s\n", c.ID, i, c.Ops[i], a[i], b[i])
+				for _, op := range c.Ops {
+					if strings.HasPrefix(op, "prov") || strings.HasPrefix(op, "new") {
+						fmt.Println("   ", op)
+					}
+				}
+				break
+			}
+		}
+	})
+}
+
 func main() {
+	if os.Getenv("C09_SELFCHECK") != "" {
+		selfCheck()
+		return
+	}
 	core.Main(core.Prop{
 		ID:       "C09",
 		Driver:   "c09",
